@@ -1946,7 +1946,8 @@ static void fam_c14_arena(G& g, Plan& p) {
   size_t B = g.pick<size_t>({40, 64, 66, 70, 128, 130});       // 64 / 128: the last bitmap field is full to its last bit
   // giant: an arena of 4-6 bitmap fields and objects of more than 64 blocks (2 GiB), whose claims span three or more fields (the
   // intermediate fields are taken and rolled back whole)
-  const bool giant = g.chance(0.15);
+  // (not in the debug build: its reset path clears the whole range by hand, gigabytes of real memory for one purge under PURGE_DECOMMITS=0)
+  const bool giant = g.chance(0.15) && g.build != "DBG";
   if (giant) { B = g.pick<size_t>({200, 256, 260, 330}); p.cfg.wall_limit_s = 120; }
   int ngiant[8] = {0, 0, 0, 0, 0, 0, 0, 0};
   const bool refusals = g.chance(0.3);      // "a request that fails ... leaves nothing reserved": some commits of freshly claimed ranges are refused by the OS
